@@ -2,6 +2,7 @@ from miasm.core.utils import decode_hex, encode_hex
 import miasm.expression.expression as m2_expr
 from miasm.ir.symbexec import SymbolicExecutionEngine
 from miasm.arch.x86.arch import is_op_segm
+from miasm.jitter.csts import EXCEPT_ACCESS_VIOL, PAGE_READ, PAGE_WRITE
 
 
 class EmulatedSymbExec(SymbolicExecutionEngine):
@@ -67,6 +68,27 @@ class EmulatedSymbExec(SymbolicExecutionEngine):
             self.symbols.symbols_id[reg] = m2_expr.ExprInt(0, size=reg.size)
 
     # Memory management
+    def _check_access(self, addr, size, access):
+        """Emulated memory access check, as done by the C memory helpers:
+        every byte must be mapped in a page allowing @access. If not, raise an
+        access violation in the VM and return False
+        @addr: int, address
+        @size: int, size in bytes
+        @access: PAGE_READ or PAGE_WRITE"""
+        if self.vm.get_exception() & EXCEPT_ACCESS_VIOL == EXCEPT_ACCESS_VIOL:
+            # A previous access of this instruction already faulted
+            return False
+        mask = (1 << self.lifter.addrsize) - 1
+        for offset in range(size):
+            cur = (addr + offset) & mask
+            if (not self.vm.is_mapped(cur, 1) or
+                self.vm.get_mem_access(cur) & access == 0):
+                self.vm.set_exception(
+                    self.vm.get_exception() | EXCEPT_ACCESS_VIOL
+                )
+                return False
+        return True
+
     def mem_read(self, expr_mem):
         """Memory read wrapper for symbolic execution
         @expr_mem: ExprMem"""
@@ -76,6 +98,9 @@ class EmulatedSymbExec(SymbolicExecutionEngine):
             return super(EmulatedSymbExec, self).mem_read(expr_mem)
         addr = int(addr)
         size = expr_mem.size // 8
+        if not self._check_access(addr, size, PAGE_READ):
+            # Faulting instruction: the value will not be used
+            return m2_expr.ExprInt(0, expr_mem.size)
         value = self.vm.get_mem(addr, size)
         if self.vm.is_little_endian():
             value = value[::-1]
@@ -100,6 +125,9 @@ class EmulatedSymbExec(SymbolicExecutionEngine):
         # Format information
         addr = int(dest.ptr)
         size = data.size // 8
+        if not self._check_access(addr, size, PAGE_WRITE):
+            # Faulting instruction: no memory effect
+            return
         content = hex(to_write).replace("0x", "").replace("L", "")
         content = "0" * (size * 2 - len(content)) + content
         content = decode_hex(content)
